@@ -534,6 +534,10 @@ class Interp:
                 return o
             if m == "toarray":
                 return o
+            if m in ("conj", "conjugate"):
+                return o.conj()
+            if m == "copy":
+                return o
             raise Unsupported("method " + m)
         if f[0] == "npmethod":
             _, o, m = f
